@@ -6,7 +6,7 @@ package bgp
 
 // ---- C05: which peers an advertisement is meant for ----
 // ForPeer: the advertisement names no peers (all of them) or names this one.
-//@ pred ForPeer(a *Advertisement, peer string) := len(a.Peers) == 0 || (exists k int :: 0 <= k && k < len(a.Peers) && a.Peers[k] == peer)
+//@ opaque pred ForPeer(a *Advertisement, peer string) := len(a.Peers) == 0 || (exists k int :: 0 <= k && k < len(a.Peers) && a.Peers[k] == peer)
 
 //@ func (*Advertisement).MatchesPeer
 //@   requires a != nil
